@@ -1,5 +1,7 @@
 package main
 
+import "time"
+
 // Generators for the node-sequence component (comp 6) and the property monitors that are
 // evaluated on the implementation's observed behaviour.
 
@@ -77,7 +79,11 @@ func evDecision() []uint64            { return append([]uint64{8}, tail(0, nil).
 var cfgSAB = []srv{{0, 1, 1}, {0, 2, 2}, {0, 3, 3}}
 
 func nsRun(cw *caseWriter, tag string, in []uint64, monitors func(tag string, in, obs []uint64)) {
+	t0 := time.Now()
 	obs, info := nsExec(in)
+	if d := time.Since(t0); d > 300*time.Millisecond {
+		cw.note("SLOW", "%s %v", tag, d)
+	}
 	nt := info["votes_granted"] > 0 || info["append_success"] > 0 || info["crash_cuts"] > 0 || info["panics"] > 0
 	cw.emit(tag, 6, in, obs, nt)
 	for _, k := range sortedKeys(info) {
@@ -120,6 +126,17 @@ func c06images() []*nsGen {
 			}
 		}
 	}
+	// snapshot ahead of the log store (after InstallSnapshot / Restore, before new appends)
+	for _, vote := range []int{0, 1} {
+		g := &nsGen{self: 1, trailing: 100, maxapp: 4, cfgtab: [][]srv{cfgSAB}}
+		g.term = 3
+		g.entries = [][4]uint64{{1, 1, 5, 9000}}
+		g.snaps = []nsSnap{{idx: 10, term: 3, cfg: cfgSAB, cfgidx: 1, data: []uint64{5, 6}, ok: true}}
+		if vote == 1 {
+			g.vterm, g.vcand = 3, 2+1
+		}
+		out = append(out, g)
+	}
 	// no configuration at all (bootstrap situation)
 	g := &nsGen{self: 1, trailing: 100, maxapp: 4}
 	g.term = 3
@@ -147,6 +164,7 @@ func c06alphabet(t uint64) []c06sym {
 		}
 	}
 	a = append(a, c06sym{ev: evVote(t+1, 2, 2, 10, t, true, 0, nil), durOps: 3, kind: 1})
+	a = append(a, c06sym{ev: evVote(t+1, 3, 3, 4, 2, false, 0, nil), durOps: 3, kind: 1}) // behind a snapshot at (10,t), ahead of short logs
 	a = append(a, c06sym{ev: evPreVote(t+1, 2, 2, 10, t), kind: 2})
 	a = append(a, c06sym{ev: evAppend(t, 3, 3, 0, 0, nil, 0, 0, nil), durOps: 1, kind: 3})
 	a = append(a, c06sym{ev: evAppend(t+1, 3, 3, 0, 0, nil, 0, 0, nil), durOps: 1, kind: 3})
